@@ -831,6 +831,12 @@ class Lower:
             x = x.replace('$%d' % i, a)
         # $VCAT: the value category of the call expression (lvalue / xvalue / prvalue) -- for callees whose return type is computed (T& or T&&)
         x = x.replace('$VCAT', n.get('valueCategory', 'prvalue'))
+        if st.get('throws_int'):          # an expression stub with an int (or int lvalue) result that may raise: result kept in a temporary
+            t = 'vs_t%d' % self.tmp
+            self.tmp += 1
+            self.pre.append('int %s = %s;' % (t, x))
+            self.pre.append('@EXC@')
+            return t
         if st.get('throws_void'):         # an expression stub without result that may raise: evaluated as a statement, followed by the exception exit
             self.pre.append(x + ';')
             self.pre.append('@EXC@')
@@ -1824,6 +1830,8 @@ class Lower:
         k = d['kind']
         ps = []
         par = self.ast.ctx_parent(d)
+        while par is not None and par.get('kind') == 'FunctionTemplateDecl':      # instantiation of a member function template
+            par = self.ast.ctx_parent(par)
         if k in ('CXXMethodDecl', 'CXXConstructorDecl', 'CXXDestructorDecl', 'CXXConversionDecl') and not self.is_static(d):
             ps.append('%s *this' % self.ctype(self.ast.qname(par) if par.get('kind') != 'ClassTemplateSpecializationDecl' else self.spec_name(par)))
         for i, p in enumerate(params_of(d)):
